@@ -233,6 +233,7 @@ def run(ctx):
 
     d9_param_staging(db, rep)
     d11_stride_sign(db, rep)
+    d12_displacement_agree(db, rep)
 
     # D10: the region counters the split emitters compute tile ex->n on every path of the emitted code
     import emitsym
@@ -776,3 +777,68 @@ def d11_stride_sign(db, rep, rule="D11-STRIDE-SIGN"):
                       (f.name, reg, size), line=c.line)
     if n < 1:
         raise AnalysisBroken("no stride load feeding a pointer-sized add found in orcprogram-x86.c")
+
+
+def d12_displacement_agree(db, rep):
+    """D12: a load/store rule addresses its array as  pointer register + displacement, the displacement being the byte offset of
+    the current element (compiler->offset scaled by the element size, halved for the up-sampling loads).  Whatever the
+    formula, every memory access the rule emits through that pointer register must use the SAME variable part of the
+    displacement - only an additive constant may differ (second element of an interpolating load).  An arm of the size switch
+    that uses another expression reads or writes other elements than its siblings."""
+    from flow import linear, single_defs
+    from x86guard import Backend
+    orows = {r["name"]: r for r in init_rows(db.tu("orcopcodes-sys").global_("opcodes")) if isinstance(r, dict) and r.get("name")}
+    LS = db.macro_int("ORC_STATIC_OPCODE_LOAD") | db.macro_int("ORC_STATIC_OPCODE_STORE")
+    n = 0
+    for target in ("sse", "mmx", "avx"):
+        be = Backend(db, target)
+        done = set()
+        for fn, op, w in be.registrations():
+            if fn is None or fn in done or op not in orows or not (orows[op]["flags"] & LS):
+                continue
+            done.add(fn)
+            f = db.func(fn, be.rules_tu.base[:-2])
+            sd = single_defs(f)
+            disp = {}
+            for c in f.calls():
+                if not c.name or "memoffset" not in c.name:
+                    continue
+                a = c.args()
+                # the displacement is the argument bound to the callee's parameter called `offset`; the base any argument naming a
+                # pointer register
+                try:
+                    callee = db.func(c.name)
+                except AnalysisBroken:
+                    continue
+                oi = [i for i, pr in enumerate(callee.params) if pr["name"] == "offset"]
+                if not oi or oi[0] >= len(a):
+                    continue
+                for k, x in enumerate(a):
+                    t = unparse(strip_casts(x))
+                    if ("ptr_reg" in t or "ptr_register" in t) and k > 0:
+                        cand = [a[oi[0]]]
+                        for o in cand:
+                            l = linear(o, lambda nm: sd.get(nm))
+                            if l is not None and l[0]:
+                                disp.setdefault(t, {}).setdefault(l[0], []).append((c, unparse(o)))
+                                break
+                            so = strip_casts(o)
+                            if so is not None and so.k in ("BinaryOperator", "DeclRefExpr", "MemberExpr") and so.v is None:
+                                d = sd.get(so.name) if so.k == "DeclRefExpr" else so
+                                disp.setdefault(t, {}).setdefault(unparse(strip_casts(d)) if d is not None else unparse(so), []).append((c, unparse(o)))
+                                break
+            for base, forms in disp.items():
+                if sum(len(v) for v in forms.values()) < 2:
+                    continue
+                n += 1
+                rep.saw(f)
+                bad = len(forms) > 1
+                ex = sorted(forms.items(), key=lambda kv: -len(kv[1]))
+                rep.check(not bad, "D12-DISPLACEMENT-AGREE", where(f), "%s:%s" % (target, base),
+                          "all %d accesses through %s use the displacement `%s` (+ constant)" % (sum(len(v) for v in forms.values()), base, ex[0][0][:50]),
+                          "%s addresses its array through %s with different displacements in different arms: `%s` (%d sites) but `%s` at line %s - that arm "
+                          "accesses other elements than the opcode refers to (out of bounds for some n)" %
+                          (fn, base, ex[0][0][:60], len(ex[0][1]), ex[-1][0][:60] if bad else "", ex[-1][1][0][0].line if bad else "?"),
+                          line=ex[-1][1][0][0].line if bad else f.line)
+    if n < 6:
+        raise AnalysisBroken("only %d load/store rules with several accesses found" % n)
